@@ -1,5 +1,6 @@
 """C03 - every smoother is a consistent relaxation of the same system."""
 import numpy as np
+import scipy.linalg as sla
 from hypothesis import strategies as st
 
 from vp import gen, refop
@@ -28,16 +29,38 @@ SHARDS = {'quick': 1, 'thorough': 16}
 LR_DIRS = {0: '', 1: 'x', 2: 'y', 3: 'z', 4: 'yz', 5: 'xz', 6: 'xy',
            7: 'xyz'}
 LR_CODE = {v: k for k, v in LR_DIRS.items()}
+# measured headroom of oracle (viii): largest accepted / smallest rejected
+# scaled difference (diagnostic only, never read by an oracle)
+_STATS = {'ref_floor': 0.0, 'ref_gap': np.inf}
 
 
 def smooth_spec():
     return st.fixed_dictionaries({
         'grid': gen.grid_spec([2, 3, 4, 5, 6]),
-        'model': gen.model_spec(epsr=False),
+        'model': gen.model_spec(),
         'freq': gen.freq_spec(),
         'lr': st.integers(0, 7),
-        'nu': st.integers(1, 6),
+        # 1..6 mostly; 0 (no-op), odd/even counts beyond 6 and the many
+        # sweeps of a coarsest-grid "direct solve" on a sub-sample (counts
+        # >= 20 only on grids with <= 4 cells per direction, see _eff_nu)
+        'nu': st.one_of(st.integers(1, 6), st.integers(1, 6),
+                        st.integers(1, 6),
+                        st.sampled_from([7, 8, 11, 50, 51, 0])),
         'alpha': st.floats(-1.5, 2.5),
+        # imaginary part of the affine weight (used for complex fields only)
+        'alpha_im': st.one_of(st.just(0.0), st.floats(-1.5, 1.5)),
+        # decimal exponents of the amplitudes of fields / sources
+        'lgamp_e': st.one_of(st.just(0.0), st.floats(-30, 30)),
+        'lgamp_s': st.one_of(st.just(0.0), st.floats(-30, 30)),
+        # sources with non-zero entries on tangential boundary edges
+        'src_bnd': st.booleans(),
+        # lr_dir passed as numpy integer (as multigrid does when cycling)
+        'lr_np': st.booleans(),
+        # kernel / sweep count of the cross reference run (oracle viii) and
+        # which direction of a combined code is compared with the reference
+        'xk': st.integers(0, 3),
+        'xnu': st.integers(1, 3),
+        'rk': st.integers(0, 2),
         'fseed': gen.SEED,
         # dense random fields, or fields with only a few non-zero interior
         # entries / a zero source (exact zeros in local right-hand sides)
@@ -88,6 +111,72 @@ def _effective_dirs(lr, shape):
                    if d in LR_DIRS[lr] and n > 2)
 
 
+def _sweep_orders(shape, kern):
+    """Admissible block orders of one ascending sweep of kernel `kern`
+    ('' = point-wise, else the line direction): list of lists of index
+    arrays.  Point-wise: the documented lexicographic order of the nodes
+    (x fastest, y, z slowest; core.gauss_seidel docstring).  Lines: the
+    lexicographic order of the two remaining indices, in both nestings
+    (no docstring fixes which of the two runs faster)."""
+    nx, ny, nz = shape
+    ex, ey, ez = refop.edge_index(nx, ny, nz)
+
+    def block(a, b, c=None):
+        if kern == '':
+            i, j, k = a, b, c
+            return [ex[i-1, j, k], ex[i, j, k], ey[i, j-1, k], ey[i, j, k],
+                    ez[i, j, k-1], ez[i, j, k]]
+        if kern == 'x':
+            j, k = a, b
+            return (list(ex[:, j, k]) +
+                    [ey[i, jj, k] for i in range(1, nx) for jj in (j-1, j)] +
+                    [ez[i, j, kk] for i in range(1, nx) for kk in (k-1, k)])
+        if kern == 'y':
+            i, k = a, b
+            return (list(ey[i, :, k]) +
+                    [ex[ii, j, k] for j in range(1, ny) for ii in (i-1, i)] +
+                    [ez[i, j, kk] for j in range(1, ny) for kk in (k-1, k)])
+        i, j = a, b
+        return (list(ez[i, j, :]) +
+                [ex[ii, j, k] for k in range(1, nz) for ii in (i-1, i)] +
+                [ey[i, jj, k] for k in range(1, nz) for jj in (j-1, j)])
+
+    if kern == '':
+        return [[np.array(block(i, j, k)) for k in range(1, nz)
+                 for j in range(1, ny) for i in range(1, nx)]]
+    na, nb = {'x': (ny, nz), 'y': (nx, nz), 'z': (nx, ny)}[kern]
+    lex = [np.array(block(a, b)) for b in range(1, nb) for a in range(1, na)]
+    if na <= 2 or nb <= 2:
+        return [lex]            # a single row of lines: one order only
+    alt = [np.array(block(a, b)) for a in range(1, na) for b in range(1, nb)]
+    return [lex, alt]
+
+
+def _ref_gs(Ad, s, e0, order, nu, desc_first):
+    """Checker-side block Gauss-Seidel: nu sweeps over `order`, alternating
+    direction, the first one descending if desc_first."""
+    e = e0.copy()
+    # LU (backward stable; the node blocks are nearly singular at small
+    # induction numbers, an explicit inverse would lose the residual)
+    lus = [sla.lu_factor(Ad[np.ix_(b, b)]) for b in order]
+    rows = [Ad[b] for b in order]
+    nb = len(order)
+    for sweep in range(nu):
+        desc = bool(desc_first) ^ (sweep % 2 == 1)
+        for m in (range(nb-1, -1, -1) if desc else range(nb)):
+            b = order[m]
+            # new block values from the OTHER unknowns only (no update form:
+            # the old block values may be many decades larger than the new)
+            e[b] = 0
+            e[b] = sla.lu_solve(lus[m], s[b] - rows[m] @ e)
+    return e
+
+
+def _eff_nu(nu, shape):
+    """Many sweeps only on small grids (cost); 50 -> 1, 51 -> 2 otherwise."""
+    return nu if (nu < 20 or max(shape) <= 4) else nu % 10 + 1
+
+
 def _smooth(emg3d, vm, sf, ef, nu, lr, pyfunc=False):
     from emg3d import core, solver
     if not pyfunc:
@@ -108,6 +197,7 @@ def _smooth(emg3d, vm, sf, ef, nu, lr, pyfunc=False):
 
 def case_smooth(spec, rec):
     import emg3d
+    from scipy.constants import mu_0, epsilon_0
     h, origin = gen.build_widths(spec['grid'])
     grid = emg3d.TensorMesh(h, origin=origin)
     shape = tuple(int(n) for n in grid.shape_cells)
@@ -115,26 +205,46 @@ def case_smooth(spec, rec):
     freq = gen.freq_of(fs)
     s = gen.sval_of(fs)
     bg = gen.bg_cond(fs, spec['grid']['scale'])
-    model, (sx, sy, sz, mur, epsr) = gen.build_model(grid, spec['model'], bg)
-    case = spec['model']['case']
+    mspec = spec['model']
+    if mspec.get('epsr', False) and not fs['laplace']:
+        # frequency domain with displacement currents: keep the wave term
+        # omega^2 mu eps h^2 small against the curl-curl term, so that neither
+        # the local blocks nor the grid come near a resonance (the pivot-free
+        # factorisation is documented for the diffusive problem; the Laplace
+        # domain is positive definite for every eps_r) - otherwise the case
+        # is run without eps_r
+        hmax = max(float(np.max(w)) for w in h)
+        wave = abs(s)**2*mu_0*epsilon_0*80.0*5.0*hmax**2
+        if wave > 0.05:
+            mspec = dict(mspec, epsr=False)
+            rec.cls('epsr_dropped_wave_term')
+    model, (sx, sy, sz, mur, epsr) = gen.build_model(grid, mspec, bg)
+    case = mspec['case']
     rsy = sy if case in ('HTI', 'triaxial') else sx
     rsz = sz if case in ('VTI', 'triaxial') else sx
     A, interior, *_ = refop.assemble(*h, sx, rsy, rsz, mur, epsr, s)
     absA = refop.absmat(A)
     sf = emg3d.Field(grid, frequency=freq)
     vm = emg3d.models.VolumeModel(model, sf)
-    lr, nu = spec['lr'], spec['nu']
-    dirs = _effective_dirs(lr, shape)
-    tag = f"lr{lr}"
+    lr, nu = spec['lr'], _eff_nu(spec['nu'], shape)
+    if spec.get('lr_np', False):
+        lr = np.int64(lr)
+    dirs = _effective_dirs(int(lr), shape)
+    tag = f"lr{int(lr)}"
     pyf = bool(spec['pyfunc']) and max(shape) <= 4
     kinds = ['jit'] + (['py'] if pyf else [])
-    ind_min = 10.0**(fs['lgind'] - spec['model']['decades']/2)
+    ind_min = 10.0**(fs['lgind'] - mspec['decades']/2)
 
     fkind = spec.get('fkind', 'dense')
     iint = np.flatnonzero(interior)
+    amp_e = 10.0**spec.get('lgamp_e', 0.0)
+    amp_s = 10.0**spec.get('lgamp_s', 0.0)
+    src_bnd = bool(spec.get('src_bnd', False))
 
     def field(salt, source=False):
-        f = gen.random_field(grid, spec['fseed'], freq, salt=salt)
+        f = gen.random_field(grid, spec['fseed'], freq, salt=salt,
+                             pec=not (source and src_bnd),
+                             scale=amp_s if source else amp_e)
         if fkind == 'dense' or iint.size == 0:
             return f
         if fkind == 'zero_source' and not source:
@@ -145,8 +255,15 @@ def case_smooth(spec, rec):
         keep = rng.choice(iint, size=min(k, iint.size), replace=False)
         v = np.zeros_like(f.field)
         v[keep] = f.field[keep]
+        if source and src_bnd:
+            v[~interior] = f.field[~interior]
         f.field[:] = v
         return f
+
+    def sabs(f):
+        """|source| on the interior rows (boundary entries are not part of
+        the system and must not enter a scale)."""
+        return np.where(interior, np.abs(f.field), 0.0)
 
     for kind in kinds:
         k = kind == 'py'
@@ -178,14 +295,21 @@ def case_smooth(spec, rec):
         # (ii) last relaxed block is solved exactly ------------------------
         src2 = field(32, source=True)
         e2 = field(33)
+        e2_start = e2.field.copy()
         _smooth(emg3d, vm, src2, e2, nu, lr, k)
         if np.any(e2.field[~interior] != 0):
             raise Violation("boundary_written"+sig,
                             "tangential boundary values written")
         if not np.all(np.isfinite(e2.field)):
             raise Violation("non_finite"+sig, "smoother produced NaN/inf")
+        if nu == 0:
+            # zero sweeps: nothing is relaxed, nothing may change
+            if not np.array_equal(e2.field, e2_start):
+                raise Violation("zero_sweeps_change_field"+sig,
+                                f"nu=0 changed the field; shape {shape}")
+            continue
         res = src2.field - A @ e2.field
-        scl = absA @ np.abs(e2.field) + np.abs(src2.field)
+        scl = absA @ np.abs(e2.field) + sabs(src2)
         den = scl + 1e-3*scl.max()
         rs = np.divide(np.abs(res), den, out=np.zeros_like(den),
                        where=den > 0)
@@ -213,6 +337,9 @@ def case_smooth(spec, rec):
 
     # (iii) affinity ----------------------------------------------------------
     a = spec['alpha']
+    if np.iscomplexobj(sf.field) and spec.get('alpha_im', 0.0) != 0.0:
+        a = complex(a, spec['alpha_im'])
+        rec.cls('alpha_complex')
     e1, e2 = field(41), field(42)
     s1, s2 = field(43, source=True), field(44, source=True)
     ec = emg3d.Field(grid, frequency=freq)
@@ -247,7 +374,7 @@ def case_smooth(spec, rec):
         _smooth(emg3d, vm, sab, eb, nu + 2, lr)
         d = ea.field - eb.field
         mag = np.abs(ea.field) + np.abs(eb.field)
-        scl = absA @ mag + np.abs(sab.field)
+        scl = absA @ mag + sabs(sab)
         rd = np.abs(A @ d)
         if np.any(rd[interior] > 1e-9*(scl[interior] + 1e-3*scl.max())):
             raise Violation(
@@ -260,7 +387,7 @@ def case_smooth(spec, rec):
         rec.cls('composition_checked')
 
     # (v) two-cell directions dropped -----------------------------------------
-    if 2 in shape and lr != LR_CODE[dirs]:
+    if 2 in shape and int(lr) != LR_CODE[dirs]:
         ea, eb = field(51), field(51)
         sa = field(52)
         emg3d.solver.smoothing(vm, sa, ea, nu, lr)
@@ -271,19 +398,123 @@ def case_smooth(spec, rec):
                             f"lr_dir {LR_CODE[dirs]}")
         rec.cls('two_cell_remap')
 
+    # (ix) combined codes = the single directions one after the other ---------
+    # (solver.smoothing: x, then y, then z, each with all nu sweeps; the same
+    # compiled kernels on the same input -> bit-identical)
+    if len(dirs) >= 2 and 'xk' in spec:
+        ea, eb = field(81), field(81)
+        sa = field(82, source=True)
+        emg3d.solver.smoothing(vm, sa, ea, nu, lr)
+        for d1 in dirs:
+            emg3d.solver.smoothing(vm, sa, eb, nu, LR_CODE[d1])
+        if not np.array_equal(ea.field, eb.field):
+            dd = np.max(np.abs(ea.field-eb.field))/max(
+                np.max(np.abs(ea.field)), 1e-300)
+            raise Violation(
+                f"combined_code_not_sequence:{tag}",
+                f"lr_dir {int(lr)} on shape {shape} (directions '{dirs}') "
+                f"differs from smoothing with "
+                f"{[LR_CODE[d1] for d1 in dirs]} one after the other: "
+                f"max rel. difference {dd:.2e}, nu {nu}")
+        rec.cls('combined_sequence_checked')
+
+    # (viii) the whole sweep: checker-side block Gauss-Seidel -----------------
+    # conventions accepted: first sweep ascending or descending (the words
+    # forward/backward do not fix it), for lines either nesting of the two
+    # remaining indices; but the SAME orientation for every kernel and nu.
+    nrows = A.shape[0]
+    if 'xk' in spec and nrows <= 1200 and iint.size:
+        Ad = A.toarray()
+
+        def conventions(kern, e0, sfld, eout, nsw):
+            """set of admissible first-sweep orientations (True = descending)
+            reproducing eout, and the worst scaled difference seen."""
+            ok, worst = set(), []
+            sint = np.where(interior, sfld, 0)
+            for desc in (True, False):
+                w = []
+                for order in _sweep_orders(shape, kern):
+                    er = _ref_gs(Ad, sint, e0, order, nsw, desc)
+                    dd = eout - er
+                    mg = np.abs(eout) + np.abs(er)
+                    sc_ = absA @ mg + np.abs(sint)
+                    r = np.abs(A @ dd)[interior]/(
+                        sc_[interior] + 1e-3*sc_.max() + 1e-300)
+                    w.append(float(r.max()))
+                    if w[-1] <= 1e-9:
+                        ok.add(desc)
+                        if nsw <= 3:
+                            _STATS['ref_floor'] = max(_STATS['ref_floor'],
+                                                      w[-1])
+                        break
+                    if nsw <= 3:
+                        _STATS['ref_gap'] = min(_STATS['ref_gap'], w[-1])
+                worst.append(min(w))
+            return ok, min(worst)
+
+        def run(kern, nsw, salt, what):
+            e0 = field(salt)
+            sfld = field(salt+1, source=True)
+            start = e0.field.copy()
+            emg3d.solver.smoothing(vm, sfld, e0, nsw, LR_CODE[kern])
+            ok, worst = conventions(kern, start, sfld.field, e0.field, nsw)
+            if not ok:
+                raise Violation(
+                    f"not_block_gauss_seidel:lr{LR_CODE[kern]}",
+                    f"{what}: smoothing(nu={nsw}, lr_dir={LR_CODE[kern]}) on "
+                    f"shape {shape} is not {nsw} alternating sweeps of block "
+                    f"Gauss-Seidel over all blocks in lexicographic order "
+                    f"(either orientation): best scaled residual of the "
+                    f"difference {worst:.2e}")
+            return ok
+
+        mk = dirs if len(dirs) <= 1 else dirs[spec['rk'] % len(dirs)]
+        ok_main = run(mk, nu, 71, 'main')
+        cand = [''] + [d1 for d1, n in zip('xyz', shape) if n > 2]
+        xk = cand[spec['xk'] % len(cand)]
+        xnu = spec['xnu']
+        ok_x = run(xk, xnu, 75, 'cross')
+        if not (ok_main & ok_x):
+            nm = {True: 'descending', False: 'ascending'}
+            raise Violation(
+                f"sweep_orientation_differs:lr{LR_CODE[mk]}:lr{LR_CODE[xk]}",
+                f"first sweep of lr_dir={LR_CODE[mk]} (nu={nu}) is "
+                f"{nm[next(iter(ok_main))]}, of lr_dir={LR_CODE[xk]} "
+                f"(nu={xnu}) {nm[next(iter(ok_x))]}; odd sweep counts are "
+                f"documented as forward for every kernel; shape {shape}")
+        rec.cls('ref_gs_checked', f"ref_kernel='{mk}'", f"cross_kernel='{xk}'")
+        if len(ok_main) == 1 and len(ok_x) == 1:
+            rec.cls('orientation_decided_both')
+        if len(ok_main) == 1:
+            rec.cls('first_sweep=' + ('descending' if True in ok_main
+                                      else 'ascending'))
+        if mk != xk:
+            rec.cls('cross_kernel_differs')
+
     kind = spec['grid']['kind']
-    het = spec['model']['hetero'] != 'homog' and spec['model']['decades'] > .1
+    het = mspec['hetero'] != 'homog' and mspec['decades'] > .1
     nblocks = len(_blocks(shape, dirs[-1:] if dirs else ''))
-    rec.cls(f"lr={lr}", f"nu={nu}", f"case={case}", f"widths={kind}",
+    rec.cls(f"lr={int(lr)}", f"nu={nu}", f"case={case}", f"widths={kind}",
             f"fields={fkind}",
             f"laplace={fs['laplace']}", gen.regime(fs),
-            f"mur={mur is not None}", f"eff_dirs='{dirs}'")
+            f"mur={mur is not None}", f"eff_dirs='{dirs}'",
+            f"epsr={epsr is not None}", f"src_bnd={src_bnd}",
+            f"lr_np={isinstance(lr, np.integer)}")
+    if epsr is not None and not fs['laplace']:
+        rec.cls('eta_re_and_im')
+    if nu == 0 or nu >= 7:
+        rec.cls('nu=0' if nu == 0 else ('nu>=20' if nu >= 20 else 'nu=7..11'))
+    for nm_, lg in (('e', spec.get('lgamp_e', 0.0)),
+                    ('s', spec.get('lgamp_s', 0.0))):
+        if lg != 0.0:
+            rec.cls(f"amp_{nm_}=" + ('tiny' if lg < -10 else
+                                     'huge' if lg > 10 else 'scaled'))
     if pyf:
         rec.cls('pyfunc')
     if kind != 'uniform' and het and nblocks >= 2:
-        rec.nt([list(shape), lr, nu, spec['grid']['seed'],
+        rec.nt([list(shape), int(lr), nu, spec['grid']['seed'],
                 spec['model']['seed']])
-    rec.note({'shape': list(shape), 'lr': lr, 'nu': nu, 'dirs': dirs,
+    rec.note({'shape': list(shape), 'lr': int(lr), 'nu': nu, 'dirs': dirs,
               'blocks_last_sweep': nblocks})
 
 
